@@ -190,6 +190,15 @@ func Prelude(li *LangInfo, native bool) string {
 	w("(assert (forall ((k Int)) (! (=> (>= k 0) (and (= (f_blen (f_zeros k)) k) (= (f_be (f_zeros k)) 0))) :pattern ((f_zeros k)))))")
 	w("(assert (= (f_zeros 0) f_emptyB))")
 	w("(assert (forall ((b Bytes) (o Int)) (! (= (f_bsub b o 0) f_emptyB) :pattern ((f_bsub b o 0)))))")
+	// single bytes: read, write, and how they show through zeros / sub-ranges
+	w("(declare-fun f_bget (Bytes Int) Int)")
+	w("(declare-fun f_bset (Bytes Int Int) Bytes)")
+	w("(assert (forall ((b Bytes) (i Int) (v Int)) (! (= (f_blen (f_bset b i v)) (f_blen b)) :pattern ((f_bset b i v)))))")
+	w("(assert (forall ((b Bytes) (i Int) (v Int)) (! (=> (and (<= 0 i) (< i (f_blen b)) (<= 0 v) (< v 256)) (= (f_bget (f_bset b i v) i) v)) :pattern ((f_bset b i v)))))")
+	w("(assert (forall ((b Bytes) (i Int) (v Int) (j Int)) (! (=> (not (= i j)) (= (f_bget (f_bset b i v) j) (f_bget b j))) :pattern ((f_bget (f_bset b i v) j)))))")
+	w("(assert (forall ((k Int) (i Int)) (! (=> (and (<= 0 i) (< i k)) (= (f_bget (f_zeros k) i) 0)) :pattern ((f_bget (f_zeros k) i)))))")
+	w("(assert (forall ((b Bytes) (o Int) (n Int) (i Int)) (! (=> (and (<= 0 o) (<= 0 i) (< i n) (<= (+ o n) (f_blen b))) (= (f_bget (f_bsub b o n) i) (f_bget b (+ o i)))) :pattern ((f_bget (f_bsub b o n) i)))))")
+	w("(assert (forall ((b Bytes)) (! (=> (>= (f_blen b) 1) (= (f_bget b 0) (f_byte0 b))) :pattern ((f_bget b 0)))))")
 	// big.Int.Bytes(): minimal-length big-endian magnitude
 	w("(assert (forall ((x Int)) (! (=> (>= x 0) (and (= (f_be (f_minbytes x)) x) (= (f_blen (f_minbytes x)) (f_minlen x)) (>= (f_minlen x) 0))) :pattern ((f_minbytes x)))))")
 	for k := 0; k <= 40; k++ {
